@@ -732,7 +732,14 @@ pub fn get_deposit(
     pool_deposit: &BigNum, // // protocol parameter
     key_deposit: &BigNum,  // protocol parameter
 ) -> Result<Coin, JsError> {
-    internal_get_deposit(&txbody.certs, &pool_deposit, &key_deposit)
+    let certificate_deposit = internal_get_deposit(&txbody.certs, &pool_deposit, &key_deposit)?;
+    // governance proposals lock a deposit too
+    match &txbody.voting_proposals {
+        None => Ok(certificate_deposit),
+        Some(proposals) => (0..proposals.len()).try_fold(certificate_deposit, |acc, i| {
+            acc.checked_add(&proposals.get(i).deposit())
+        }),
+    }
 }
 
 #[derive(Debug, Clone, Eq, Ord, PartialEq, PartialOrd)]
